@@ -204,6 +204,82 @@ pub fn sizes(st: &mut Stats) {
         }
     }
     st.shapes.insert(fnv(b"sizes-scenario"));
+    big_ids(st);
+}
+
+/// Attribute ids that need two and three LEB128 bytes inside right names (>= 128, >= 16384): the id
+/// counter is pushed up by add/delete cycles (ids are never reused), then a real attribute is added,
+/// keyed, encapsulated for, round-tripped.
+fn big_ids(st: &mut Stats) {
+    for target in [300usize, 16_500] {
+        let cc = Covercrypt::default();
+        let Out::Ok((mut msk, _)) = call(|| cc.setup()) else { return };
+        let _ = msk.access_structure.add_anarchy("D".into());
+        let _ = msk.access_structure.add_hierarchy("H".into());
+        let _ = msk.access_structure.add_attribute(QualifiedAttribute::new("H", "L"), hint(false), None);
+        for i in 0..target {
+            let name = format!("t{i}");
+            let _ = msk.access_structure.add_attribute(QualifiedAttribute::new("D", &name), hint(false), None);
+            let _ = msk.access_structure.del_attribute(&QualifiedAttribute::new("D", &name));
+        }
+        let _ = msk.access_structure.add_attribute(QualifiedAttribute::new("D", "big"), hint(true), None);
+        let _ = msk.access_structure.add_attribute(QualifiedAttribute::new("H", "T"), hint(false), Some("L"));
+        let Out::Ok(mpk) = call(|| cc.update_msk(&mut msk)) else {
+            fail(st, "big-ids:update-fails", format!("{target}"));
+            continue;
+        };
+        let id = ser(&msk).ok().and_then(|b| WMsk::parse(&b).ok()).and_then(|w| w.structure.attr_id("D", "big"));
+        if id.map_or(true, |i| (i as usize) < target) {
+            fail(st, "big-ids:id-counter-did-not-advance", format!("D::big has id {id:?} after {target} add/delete cycles"));
+            continue;
+        }
+        let kp = AccessPolicy::parse("D::big && H::T").unwrap();
+        let other = AccessPolicy::parse("H::L").unwrap();
+        let (Out::Ok(usk), Out::Ok(usk_low)) = (call(|| cc.generate_user_secret_key(&mut msk, &kp)), call(|| cc.generate_user_secret_key(&mut msk, &other))) else {
+            fail(st, "big-ids:keygen-fails", format!("{target}"));
+            continue;
+        };
+        for (ep, expect_hi, expect_low) in [("D::big && H::L", true, true), ("D::big && H::T", true, false), ("D::big", true, true), ("H::T", true, false)] {
+            let ap = AccessPolicy::parse(ep).unwrap();
+            let Out::Ok((s, e)) = call(|| cc.encaps(&mpk, &ap)) else {
+                fail(st, "big-ids:encaps-fails", ep.to_string());
+                continue;
+            };
+            // everything through bytes
+            let e = ser(&e).ok().and_then(|b| de::<XEnc>(&b).ok()).unwrap_or(e);
+            let u = ser(&usk).ok().and_then(|b| de::<UserSecretKey>(&b).ok());
+            let Some(u) = u else {
+                fail(st, "big-ids:usk-roundtrip-fails", String::new());
+                continue;
+            };
+            if u != usk {
+                fail(st, "big-ids:usk-roundtrip-not-equal", format!("ids around {target}"));
+            }
+            for (who, key, expect) in [("holder", &u, expect_hi), ("low", &usk_low, expect_low)] {
+                st.bump("golden_decaps");
+                let got = match call(|| cc.decaps(key, &e)) {
+                    Out::Ok(Some(k)) => real::secret_bytes(&k) == real::secret_bytes(&s),
+                    Out::Ok(None) => false,
+                    o => {
+                        fail(st, "big-ids:decaps-fails", o.describe());
+                        continue;
+                    }
+                };
+                // "low" holds H::L only: it opens targets whose H part is absent or L and whose D
+                // part... it has no D attribute named, so any D attribute is covered
+                if got != expect {
+                    fail(st, "big-ids:decaps-differs", format!("ids around {target}: {who} on {ep}: got {got}, expected {expect}"));
+                }
+            }
+        }
+        if let Some(b) = ser(&msk).ok() {
+            st.bump("roundtrips_ok");
+            if b.len() != msk.length() || de::<MasterSecretKey>(&b).ok().map_or(true, |m| m != msk) {
+                fail(st, "big-ids:msk-roundtrip", format!("ids around {target}"));
+            }
+        }
+        st.shapes.insert(fnv(format!("big-ids-{target}").as_bytes()));
+    }
 }
 
 /// Loads the vectors with the current tree and checks that they still work.
@@ -431,7 +507,7 @@ pub fn check(path: &str) -> Stats {
     // round trip, absent ≡ empty metadata on the wire
     if let Some(mpk) = mpks.get("mpk2") {
         let ap = AccessPolicy::parse("D::A && H::T").unwrap();
-        for ml in [None, Some(0usize), Some(1), Some(127), Some(128), Some(1000)] {
+        for ml in [None, Some(0usize), Some(1), Some(99), Some(100), Some(127), Some(128), Some(1000), Some(16355), Some(16356), Some(16383), Some(16384)] {
             let meta: Option<Vec<u8>> = ml.map(|l| vec![0xa5; l]);
             let Out::Ok((_, h)) = call(|| EncryptedHeader::generate(&cc, mpk, &ap, meta.as_deref(), None)) else {
                 fail(&mut st, "header-generate-fails", format!("{ml:?}"));
